@@ -207,7 +207,7 @@ def main():
         "kernel findings K1-K5 are attributed only when the value equals the finding's exact alternative semantics (defect twin) or lies "
         "inside 1000x the measured instability of the kernel's own algebraic route (K5)",
     ]
-    return chk.finish()
+    return chk.finish(run_case)
 
 
 def replay(doc):
